@@ -74,11 +74,11 @@ def plan(tier):
             inst.append({"id": iid, "kind": "invmixed", "code": f'vfm15::run_inv_mixed<{src}, {r}, {dst}, {t}>(ID, "inverse<{t}> {src}:{r}->{dst} K={K}", {K}.0L, nrandom, seed ^ ID);'})
             iid += 1
     for au_, f, ident in TRIG:
-        for rep in ("double", "float", "int32_t", "int16_t"):
-            inst.append({"id": iid, "kind": "trig", "code": f'vfm15::run_trig<{au_}, {rep}>(ID, "trig {au_}:{rep}", {f}, {"true" if ident and rep in ("double", "float") else "false"}, nrandom, seed ^ ID);'})
+        for rep in ("double", "float", "long double", "int32_t", "int16_t"):
+            inst.append({"id": iid, "kind": "trig", "code": f'vfm15::run_trig<{au_}, {rep}>(ID, "trig {au_}:{rep}", {f}, {"true" if ident and rep in ("double", "float", "long double") else "false"}, nrandom, seed ^ ID);'})
             iid += 1
     for u1, u2, cu, k1, k2 in TWO:
-        for rep in ("double", "float"):
+        for rep in ("double", "float", "long double"):
             inst.append({"id": iid, "kind": "two", "code": f'vfm15::run_two<{u1}, {u2}, {rep}, {cu}>(ID, "two {u1},{u2}:{rep}", {k1}.0L, {k2}.0L, nrandom, seed ^ ID);'})
             iid += 1
     for u in MISC_UNITS:
@@ -143,13 +143,16 @@ def refusal_probes(inv_cases):
                 expect = "reject"  # not even representable
             else:
                 expect = "accept" if K >= 10 ** 6 else "reject"
-            P.append({"id": pid, "name": f"implicit_inverse|{src}->{dst}|{rep}|K={K}", "expect": expect, "dedup_key": (src, dst, rep),
-                      "text": f"void vf_p{pid}() {{ using namespace au; auto q = make_quantity<{src}>({lit}); auto r = inverse_as({dst}{{}}, q); auto s = inverse_in({dst}{{}}, q); (void)r; (void)s; }}"})
-            pid += 1
-            if K <= mx:
-                P.append({"id": pid, "name": f"explicit_inverse|{src}->{dst}|{rep}|K={K}", "expect": "accept", "dedup_key": (src, dst, rep, "e"),
-                          "text": f"void vf_p{pid}() {{ using namespace au; auto q = make_quantity<{src}>({lit}); auto r = inverse_as<{rep}>({dst}{{}}, q); (void)r; }}"})
+            # one entry point per probe: the refusal of one spelling must not hide the acceptance of the other
+            for form, call in (("inverse_as", f"inverse_as({dst}{{}}, q)"), ("inverse_in", f"inverse_in({dst}{{}}, q)")):
+                P.append({"id": pid, "name": f"implicit_{form}|{src}->{dst}|{rep}|K={K}", "expect": expect, "dedup_key": (src, dst, rep),
+                          "text": f"void vf_p{pid}() {{ using namespace au; auto q = make_quantity<{src}>({lit}); auto r = {call}; (void)r; }}"})
                 pid += 1
+            if K <= mx:
+                for form in ("inverse_as", "inverse_in"):
+                    P.append({"id": pid, "name": f"explicit_{form}|{src}->{dst}|{rep}|K={K}", "expect": "accept", "dedup_key": (src, dst, rep, "e"),
+                              "text": f"void vf_p{pid}() {{ using namespace au; auto q = make_quantity<{src}>({lit}); auto r = {form}<{rep}>({dst}{{}}, q); (void)r; }}"})
+                    pid += 1
     for f in ("sin", "cos", "tan"):
         P.append({"id": pid, "name": f"{f}_non_angle", "expect": "reject", "text": f"void vf_p{pid}() {{ using namespace au; auto r = {f}(meters(1.0)); (void)r; }}"})
         pid += 1
